@@ -435,6 +435,28 @@ def judge_gate(c):
     return J(corr=corr, verdict=verdict, tag=("gate." + c["op"]) if verdict == "violates" else None, what=what, key=key)
 
 
+def judge_gate_run(c):
+    """C15: a Model that has already executed the node gates the inputs of every later Run (the decision is the
+    model's gate on the element types of the later Run)"""
+    impl, model = c["impl"], c["model"]
+    key = ("gate-run", c["op"], impl["status"], (impl.get("errkind") or "")[:6])
+    if impl["status"] == "skip":
+        return J(corr="skip", verdict="unjudged", what=impl.get("msg", "")[:80], key=key, trivial=True)
+    spec = gate_spec(c)
+    if spec["status"] != "error":
+        # an acceptable element type at this position: what the operator makes of it is another property's matter
+        return J(corr="skip", verdict="holds", key=key)
+    corr = "agree" if impl["status"] == model.get("status") else "disagree"
+    verdict, what = "holds", ""
+    if impl["status"] == "panic":
+        verdict, what = "violates", "a later Run panics on a disallowed element type: " + impl.get("msg", "")[:80]
+    elif impl["status"] != "error":
+        verdict, what = "violates", f"a Run after a completed Run accepts {c['p']['dt']} at position {c['p']['pos']} ({spec['errkind']} expected)"
+    elif spec["errkind"].startswith("input.") and not (impl.get("errkind") or "").startswith("input."):
+        verdict, what = "violates", f"a Run after a completed Run rejects {c['p']['dt']} at position {c['p']['pos']} with {impl.get('errkind')} instead of an input error"
+    return J(corr=corr, verdict=verdict, tag=("gate-run." + c["op"]) if verdict == "violates" else None, what=what, key=key)
+
+
 def judge_lookup(c):
     impl, model = c["impl"], c["model"]
     registered = c["p"]["registered"]
@@ -478,7 +500,7 @@ def judge_fresh(c):
 
 
 JUDGES = {"op": judge_op, "bcast": judge_op, "gate": judge_gate, "lookup": judge_lookup, "fresh": judge_fresh,
-          "lookup-sweep": judge_lookup_sweep}
+          "lookup-sweep": judge_lookup_sweep, "gate-run": judge_gate_run}
 
 
 def judge(c):
@@ -763,6 +785,9 @@ def judge_load(c):
         verdict, what = "violates", f"highest imported opset is {max([0] + [int(v) for v in (c['p']['parsed'].get('opsets') or [])])} (imports {c['p']['parsed'].get('opsets')}), not the implemented {IMPLEMENTED_OPSET}, but the model loads"
     elif ms == "ok" and impl["status"] != "ok":
         verdict, what = "violates", f"loadable model refused: {impl.get('msg','')[:100]}"
+    elif c.get("prop") == "C12" and ms == "error" and model.get("errkind") != "unsupportedOpset" and impl["status"] == "ok":
+        # C12: an initializer that cannot be decoded is reported as an error, wherever it stands in the list
+        verdict, what = "violates", f"a model with an initializer that cannot be decoded ({c['p'].get('note')}) loads without error"
     tag = None
     if verdict == "violates":
         tag = "load." + (c.get("stream") or "").split(":")[0] + "." + impl["status"]
